@@ -59,6 +59,13 @@ def confirm(rec, families):
     comp = compile_request(req)
     dec = rec["violation"].get("decoded")
     if dec is not None and rec.get("symbolic_dimension"):
+        # first at the model's own (possibly ~2^31) size on the concrete IR machine only: blocks are
+        # sparse there, so nothing of that size is allocated; then at the smallest admissible size
+        big = replay.concrete_ir_run(comp, ["evaluate"], dec, max_loop_iter=20000)
+        if big["violation"] is not None:
+            return {"ir": {"violation": big["violation"], "problems": [big["violation"]["label"]]}, "real": None, "asan": None,
+                    "confirmed": True, "where": ["ir-machine at the model's dimension size (not run natively: size ~2^31)"],
+                    "dimension_sizes": dec["dimvals"]}
         dec = shrink_symbolic_dims(comp, dec, rec.get("dimvec", {}))
     out = {"ir": None, "real": None, "asan": None, "confirmed": False, "where": []}
     if dec is None:
@@ -206,7 +213,7 @@ def run(pid: str, tier: str, families=None, extra_requests=None, worker=None, va
                             "witness": r.get("witness")})
     # validate the executor against the implementation on witnesses
     if validator is not None:
-        validated, val_problems = validator(results, 8 if tier == "quick" else 30)
+        validated, val_problems = validator(results, 8 if tier == "quick" else 30, rep)
     elif validate:
         validated, val_problems = validate_witnesses(results, families, limit=12 if tier == "quick" else 40)
     else:
